@@ -317,7 +317,7 @@ func TestC16(t *testing.T) {
 		var mut *Mutation
 		if rapid.IntRange(0, 4).Draw(rt, "illFormed") == 0 {
 			kinds := []string{"ref-field-type", "ref-arg-type", "ref-union-member", "ref-interface", "dup-type", "dup-field", "reserved-field", "field-returns-input",
-				"arg-takes-output", "iface-missing-field", "iface-wrong-type", "iface-extra-required-arg", "union-member-not-object", "dir-wrong-location-type", "ref-directive-on-type", "schema-root-input-type", "schema-unknown-operation", "dir-uncoercible-arg-input-field", "dir-uncoercible-arg-null"}
+				"arg-takes-output", "iface-missing-field", "iface-wrong-type", "iface-extra-required-arg", "union-member-not-object", "dir-wrong-location-type", "ref-directive-on-type", "schema-root-input-type", "schema-unknown-operation", "dir-uncoercible-arg-input-field", "dir-uncoercible-arg-null", "input-default-needs-itself", "input-default-needs-itself-by-extension"}
 			for _, k := range rapid.Permutation(kinds).Draw(rt, "illKinds") {
 				if ms, m, ok := Mutate(rt, s, k); ok {
 					s = ms
